@@ -173,19 +173,23 @@ def gen_numbers(cs, rng, thorough):
         cs.atom("cpx-exact", ("cpx", re_, im))
     for re_, im in ((0, 1), (0, -1), (1, 1), (1, -1), (-1, 2), (0, 2), (5, -7)):
         cs.atom("cpx-exact", ("cpx", ("int", re_), ("int", im)))
-    # inexact complex, ordinary parts
-    for i in range(120 if thorough else 30):
-        a = dbits(rng.choice([0.5, 1.0, -1.5, 2.25, 1e10, -3.75, 0.1, 1e-5, 123.456]) * rng.choice([1, 3, 7]))
-        b = dbits(rng.choice([0.5, 1.0, -1.0, -1.5, 2.25, 1e10, -3.75, 0.1, 1e-5]) * rng.choice([1, 3, 7]))
-        cs.atom("cpx-inexact", ("cpx", ("flo", a), ("flo", b)))
-    # inexact complex with special parts
+    # inexact complex, ordinary parts; parts printed with an exponent are a class of their own
+    plain = [0.5, 1.0, -1.5, 2.25, 12345.678, -3.75, 0.1, 123.456, 1024.0, -0.001]
+    expo = [1e21, 1e-7, -2.5e-10, 6.02e23, 1e100, -1e-300]
+    for i in range(120 if thorough else 40):
+        ca, cb = rng.choice(["plain", "exp"]), rng.choice(["plain", "exp"])
+        a = rng.choice(plain if ca == "plain" else expo) * rng.choice([1, 3, 7])
+        b = rng.choice(plain if cb == "plain" else expo) * rng.choice([1, 3, 7])
+        cs.atom("cpx-inexact-real-%s-imag-%s" % (ca, cb), ("cpx", ("flo", dbits(a)), ("flo", dbits(b))), note="%r %r" % (a, b))
+    # inexact complex with non-finite or signed-zero parts
     specials = {"pinf": 0x7FF0000000000000, "ninf": 0xFFF0000000000000, "nan": 0x7FF8000000000000,
-                "nzero": 0x8000000000000000, "pzero": 0, "one": dbits(1.0), "mone": dbits(-1.0)}
+                "nzero": 0x8000000000000000, "pzero": 0, "one": dbits(1.0), "mone": dbits(-1.5)}
+    kind = {"pinf": "inf", "ninf": "inf", "nan": "nan", "nzero": "zero", "pzero": "zero", "one": "fin", "mone": "fin"}
     for ra in specials:
         for ia in specials:
-            if ia == "pzero" and ra in ("one", "mone"):
-                pass
-            cs.atom("cpx-special:%s:%s" % (ra, ia), ("cpx", ("flo", specials[ra]), ("flo", specials[ia])))
+            if kind[ra] == "fin" and kind[ia] == "fin":
+                continue
+            cs.atom("cpx-real-%s-imag-%s" % (kind[ra], kind[ia]), ("cpx", ("flo", specials[ra]), ("flo", specials[ia])), note="%s %s" % (ra, ia))
 
 
 def half_to_double_bits(h):
@@ -282,7 +286,7 @@ def gen_strings(cs, rng, thorough):
     alpha = S("ab\\\"|;#x41 \n\t\r\a\b") + [0, 1, 27, 127, 128, 255, 0x3BB, 0x10000]
     for i in range(600 if thorough else 120):
         cs.atom("str-random", ("str", [rng.choice(alpha) for _ in range(rng.randint(0, 12))]))
-    for n in (127, 128, 129, 255, 256, 1000, 5000):
+    for n in (127, 128, 129, 255, 256, 600):
         cs.atom("str-long", ("str", [rng.choice(S("abc \\\"\n") + [0x3BB]) for _ in range(n)]), note="length %d" % n)
 
 
@@ -760,11 +764,26 @@ def campaign(chk, sc, build, cases, kind, label, jobs_drv=8, jobs_tlc=6):
 def report_rejections(chk, sc, build, cases, rejs, by, kind):
     """group TLC's rejections by structural key, confirm one representative per key in isolation, report"""
     cmap = {c["id"]: c for c in cases}
-    keys = {}
+    GROUP = {"not-equal": "value-differs", "not-iso": "value-differs", "read-error": "read-error", "read-malformed": "value-differs",
+             "text-not-equal": "text-wrong", "text-not-iso": "text-wrong", "text-syntax": "text-wrong", "text-lex": "text-wrong",
+             "readers-differ-outcome": "readers-differ", "readers-differ-datum": "readers-differ", "no-end": "crash-or-hang",
+             "text-not-consumed": "text-not-consumed", "write-error": "write-error"}
+    WFAM = {"native": "native-writer", "simple": "native-writer", "write": "srfi38-writer", "shared": "srfi38-writer", "text": "given-text", "": "-"}
+    percase = {}
     for cid, why, w, r in rejs:
+        percase.setdefault(cid, []).append((why, w, r))
+    keys = {}
+    for cid, ls in percase.items():
         c = cmap[cid]
-        key = "%s:%s:%s%s" % (c["cls"], why, w, (":" + r) if r else "")
-        keys.setdefault(key, []).append((cid, why, w, r))
+        for why, w, r in ls:
+            grp = GROUP.get(why, why)
+            key = "%s:%s:%s" % (c["cls"], grp, WFAM.get(w, w))
+            if grp in ("value-differs", "read-error"):
+                # name the reader only if the other reader handles the same text correctly
+                other = [x for x in ls if GROUP.get(x[0], x[0]) == grp and x[1] == w and x[2] != r]
+                if not other:
+                    key += ":reader=" + r
+            keys.setdefault(key, []).append((cid, why, w, r))
     confirmed = 0
     for key, ls in sorted(keys.items()):
         ls.sort()
